@@ -5,6 +5,21 @@ from .ast import render
 from .cond import norm_cond, Lit
 
 
+import re as _re
+_MENT = {}
+
+
+
+def _mentions(atom, name):
+    """does the atom's text mention the variable / access path `name` as a whole token?"""
+    if name not in atom:
+        return False
+    rx = _MENT.get(name)
+    if rx is None:
+        rx = _MENT[name] = _re.compile(r"(?<![\w$.>])" + _re.escape(name) + r"(?![\w$])")
+    return rx.search(atom) is not None
+
+
 class Block:
     __slots__ = ("id", "elems", "term", "cond", "succs", "preds", "label", "looptarget", "termk")
 
@@ -109,26 +124,96 @@ class CFG:
         self._lits[key] = lit
         return lit
 
+    def implied_lits(self, bid, idx):
+        """further literals that hold on this edge because the tested local is a flag with a compound definition:
+        `flag = A || B; if (!flag)` implies !A and !B; `flag = A && B; if (flag)` implies A and B."""
+        key = ("impl", bid, idx)
+        if key in self._lits:
+            return self._lits[key]
+        out = []
+        b = self.blocks[bid]
+        if b.cond is not None and len(b.succs) == 2 and b.termk != "SwitchStmt":
+            base = norm_cond(b.cond, tail=True)
+            lit = base if idx == 0 else base.negated()
+            if lit.kind == "truth" and lit.node.k == "DeclRefExpr" and lit.node.j.get("dk") == "local":
+                rhs = self._flag_def(lit.node.j["name"], bid)
+                if rhs is not None:
+                    r = rhs.strip()
+                    op = "&&" if lit.pol else "||"
+
+                    def parts(e):
+                        e2 = e.strip()
+                        if e2.k == "BinaryOperator" and e2.j.get("op") == op:
+                            return parts(e2.children[0]) + parts(e2.children[1])
+                        return [e2]
+                    ps = parts(r)
+                    if len(ps) > 1:
+                        for x in ps:
+                            l2 = norm_cond(x)
+                            out.append(l2 if lit.pol else l2.negated())
+        self._lits[key] = out
+        return out
+
+    def _flag_def(self, v, bid):
+        """the defining expression of flag local v when it has exactly one definition, a pure boolean expression whose operands
+        are not changed between the definition and the test in block bid; else None"""
+        self._flag_tables()
+        d, spoiled = self._flagdefs
+        if v in spoiled or len(d.get(v, [])) != 1:
+            return None
+        rhs, st = d[v][0]
+        r = rhs.strip()
+        if any(x.k == "CallExpr" and x.j.get("callee") not in ("strcmp", "strncmp", "strcasecmp", "strlen", "memcmp") for x in r.walk()):
+            return None
+        if any(x.k in ("CompoundAssignOperator",) or (x.k == "UnaryOperator" and x.j.get("op") in ("++", "--")) or
+               (x.k == "BinaryOperator" and x.j.get("op") == "=") for x in r.walk()):
+            return None
+        db = self.block_of(st)
+        if db is not None and db != bid:
+            from . import query
+            names = set(x.j["name"] for x in r.walk() if x.k == "DeclRefExpr" and x.j.get("dk") in ("local", "param"))
+            after = set()
+            for s2 in self.blocks[db].succs:
+                if s2 is not None:
+                    after |= self.reachable(s2, avoid_blocks=[db])
+            before = self.reachable(bid, avoid_blocks=[db], forward=False)
+            for b2 in (after & before) | {bid}:
+                for n in self.blocks[b2].elems:
+                    t = None
+                    if n.k == "BinaryOperator" and n.j.get("op") == "=":
+                        t = n.children[0]
+                    elif n.k == "CompoundAssignOperator" or (n.k == "UnaryOperator" and n.j.get("op") in ("++", "--")):
+                        t = n.children[0]
+                    if t is not None:
+                        root, _sel = query.lvalue_root(t)
+                        if root is not None and root.j.get("name") in names and render(t) in [render(x) for x in r.walk() if x.is_expr()]:
+                            return None
+        return rhs
+
+    def _flag_tables(self):
+        if hasattr(self, "_flagdefs"):
+            return
+        d, spoiled = {}, set()
+        for n in self.fn.walk():
+            if n.k == "DeclStmt":
+                for dd in n.j.get("decls", []):
+                    if dd.get("init", -1) >= 0:
+                        d.setdefault(dd["name"], []).append((self.fn.nodes[dd["init"]], n))
+            elif n.k == "BinaryOperator" and n.j.get("op") == "=" and n.children[0].strip().k == "DeclRefExpr":
+                d.setdefault(n.children[0].strip().j["name"], []).append((n.children[1], n))
+            elif n.k == "CompoundAssignOperator" or (n.k == "UnaryOperator" and n.j.get("op") in ("++", "--", "&")):
+                t = n.children[0].strip()
+                if t.k == "DeclRefExpr":
+                    spoiled.add(t.j["name"])
+        self._flagdefs = (d, spoiled)
+
     def _expand_flag(self, lit, bid):
         """`flag = a == b; ... if (flag)`: the test of a local that has exactly one definition, an atomic pure
         comparison whose operands are not changed between the definition and the test, IS that comparison."""
         if lit.kind != "truth" or lit.node.k != "DeclRefExpr" or lit.node.j.get("dk") != "local":
             return lit
         v = lit.node.j["name"]
-        if not hasattr(self, "_flagdefs"):
-            d, spoiled = {}, set()
-            for n in self.fn.walk():
-                if n.k == "DeclStmt":
-                    for dd in n.j.get("decls", []):
-                        if dd.get("init", -1) >= 0:
-                            d.setdefault(dd["name"], []).append((self.fn.nodes[dd["init"]], n))
-                elif n.k == "BinaryOperator" and n.j.get("op") == "=" and n.children[0].strip().k == "DeclRefExpr":
-                    d.setdefault(n.children[0].strip().j["name"], []).append((n.children[1], n))
-                elif n.k == "CompoundAssignOperator" or (n.k == "UnaryOperator" and n.j.get("op") in ("++", "--", "&")):
-                    t = n.children[0].strip()
-                    if t.k == "DeclRefExpr":
-                        spoiled.add(t.j["name"])
-            self._flagdefs = (d, spoiled)
+        self._flag_tables()
         d, spoiled = self._flagdefs
         if v in spoiled or len(d.get(v, [])) != 1:
             return lit
@@ -207,7 +292,7 @@ class CFG:
         cut = set()
         for (b, i, s) in self.edges():
             lit = self.edge_lit(b, i)
-            if edge_pred(lit, b, i):
+            if edge_pred(lit, b, i) or any(edge_pred(l2, b, i) for l2 in self.implied_lits(b, i)):
                 cut.add((b, i))
         if target_block not in self.reachable(start, avoid_edges=cut):
             return True, cut
@@ -217,7 +302,7 @@ class CFG:
         wp = self.feasible_reach(target_block, lambda lit, b, i: (b, i) in cut, lambda a: _re.match(r"^[A-Za-z_][\w$.]*$", a) is not None, start=start)
         return wp is None, cut
 
-    def success_path_avoiding(self, cut_pred):
+    def success_path_avoiding(self, cut_pred, start=None, struct_returns=False):
         """A consistent path from the entry to a return that may deliver 0 / ECONF_SUCCESS, not using any edge for
         which cut_pred holds - or None when every way to success uses such an edge.  A returned variable is
         followed through constant assignments and copies (an unknown value may be a success)."""
@@ -231,10 +316,13 @@ class CFG:
                         return c in (0, "ECONF_SUCCESS")
                     if not n.children:
                         return True
-                    v = fd.get("=" + render(n.children[0]))
+                    nm = render(n.children[0])
+                    if fd.get(nm) is True:
+                        return False            # tested non-zero on this path
+                    v = fd.get("=" + nm)
                     return v is None or v == 0
             return False
-        return self.feasible_reach(None, cut_pred, lambda a: True, accept=accept)
+        return self.feasible_reach(None, cut_pred, lambda a: True, accept=accept, start=start)
 
     def returned_values_from(self, start):
         """Values returned on the consistent paths that start in block `start` (its own assignments included):
@@ -258,7 +346,7 @@ class CFG:
     def success_cut(self, pred):
         return self.success_path_avoiding(lambda lit, b, i: pred(lit, b, i)) is None
 
-    def feasible_reach(self, target_block, cut_pred, track, start=None, nonempty=False, accept=None):
+    def feasible_reach(self, target_block, cut_pred, track, start=None, nonempty=False, accept=None, init_facts=None, start_index=0):
         """Is target_block reachable from start without using an edge for which cut_pred holds,
         along a path whose literals on the tracked atoms are not contradictory?  `track` is a
         predicate on atoms.  Facts are killed by stores to a variable the atom mentions.
@@ -274,7 +362,7 @@ class CFG:
                 elif n.k in ("CompoundAssignOperator",) or (n.k == "UnaryOperator" and n.j.get("op") in ("++", "--")):
                     names.add(render(n.children[0]))
             kills[b.id] = names
-        init = (start, frozenset())
+        init = (start, frozenset((init_facts or {}).items()))
         prev = {init: None}
         queue = [init]
         while queue:
@@ -288,12 +376,26 @@ class CFG:
                 path.reverse()
                 return path
             fd = dict(facts)
-            for nm in kills[b]:
-                for a in list(fd):
-                    if nm and nm in a:
-                        del fd[a]
+            first = cur is init and start_index > 0
+            if not first:
+                for nm in kills[b]:
+                    for a in list(fd):
+                        if nm and _mentions(a, nm):
+                            del fd[a]
+            else:
+                # resuming in the middle of the start block: only the stores behind the resume point kill
+                for n in self.blocks[b].elems[start_index:]:
+                    nm = None
+                    if n.k == "BinaryOperator" and n.j.get("op") == "=":
+                        nm = render(n.children[0])
+                    elif n.k in ("CompoundAssignOperator",) or (n.k == "UnaryOperator" and n.j.get("op") in ("++", "--")):
+                        nm = render(n.children[0])
+                    if nm:
+                        for a in list(fd):
+                            if _mentions(a, nm):
+                                del fd[a]
             # constant assignments to tracked flag variables establish facts (new_key = false; ...)
-            for n in self.blocks[b].elems:
+            for n in (self.blocks[b].elems[start_index:] if first else self.blocks[b].elems):
                 if n.k == "BinaryOperator" and n.j.get("op") == "=":
                     nm = render(n.children[0])
                     cv = n.children[1].const_value()
@@ -332,7 +434,8 @@ class CFG:
                 if s is None:
                     continue
                 lit = self.edge_lit(b, i)
-                if cut_pred(lit, b, i):
+                impl = self.implied_lits(b, i)
+                if cut_pred(lit, b, i) or any(cut_pred(l2, b, i) for l2 in impl):
                     continue
                 nf = dict(fd)
                 if lit is not None and lit.kind in ("eq", "lt"):
@@ -340,9 +443,13 @@ class CFG:
                     lv = fd.get("=" + render(lit.lhs)) if lit.lhs.const_value() is None else lit.lhs.const_value()
                     rv = fd.get("=" + render(lit.rhs)) if lit.rhs.const_value() is None else lit.rhs.const_value()
                     if lv is not None and rv is not None and (lit.lhs.const_value() is None or lit.rhs.const_value() is None):
-                        holds = (lv == rv) if lit.kind == "eq" else (lv < rv)
-                        if holds != lit.pol:
-                            continue
+                        numeric = isinstance(lv, int) and isinstance(rv, int)
+                        # a symbolic "some failure code" differs from 0, and may or may not equal any other constant
+                        symbolic_vs_zero = lit.kind == "eq" and not numeric and (lv == 0 or rv == 0)
+                        if numeric or symbolic_vs_zero:
+                            holds = (lv == rv) if lit.kind == "eq" else (lv < rv)
+                            if holds != lit.pol:
+                                continue
                 if lit is not None and track(lit.atom):
                     if lit.atom in nf and nf[lit.atom] != lit.pol:
                         continue            # contradictory path
